@@ -10,6 +10,7 @@ import (
 	"go/parser"
 	"go/token"
 	"go/types"
+	"regexp"
 	"strings"
 
 	"golang.org/x/tools/go/packages"
@@ -85,8 +86,17 @@ func (e *Engine) checkContract(con *Contract) (*checkedContract, error) {
 		_ = ft
 		if (strings.Contains(con.name, ".") && isInterfaceMethodName(con.name)) || strings.HasPrefix(con.name, "method:") {
 			ci.params = append(ci.params, "recv")
-			ci.ptypes = append(ci.ptypes, types.NewInterfaceType(nil, nil))
-			extraParams = append(extraParams, "recv any")
+			var rt types.Type = types.NewInterfaceType(nil, nil)
+			rtext := "any"
+			// a value receiver of a named type, `pkg.(T).M`: recv has that type when the
+			// verif file can name it (its package is imported there)
+			if m := valueRecvRE.FindStringSubmatch(con.name); m != nil {
+				if t, err := checkTypeExpr(pkg.Fset, pkg.Types, basePos, m[1]+"."+m[2]); err == nil {
+					rt, rtext = t, m[1]+"."+m[2]
+				}
+			}
+			ci.ptypes = append(ci.ptypes, rt)
+			extraParams = append(extraParams, "recv "+rtext)
 		}
 		for i := 0; i < sig.Params().Len(); i++ {
 			p := sig.Params().At(i)
@@ -164,6 +174,26 @@ func (e *Engine) checkContract(con *Contract) (*checkedContract, error) {
 			cl.callPos = cpos
 			pos = cpos
 			cl.callExtra = callResultParams(body, pkg.TypesInfo, pkg.Types, cpos)
+		} else if cl.kind == "at" && strings.HasPrefix(cl.at, "return#") {
+			// checked at one return statement (the K-th in source order, nested function
+			// literals not counted); the locals in scope there are visible
+			k := -1
+			fmt.Sscanf(strings.TrimPrefix(cl.at, "return#"), "%d", &k)
+			var found []token.Pos
+			ast.Inspect(body, func(n ast.Node) bool {
+				switch r := n.(type) {
+				case *ast.FuncLit:
+					return false
+				case *ast.ReturnStmt:
+					found = append(found, r.Return)
+				}
+				return true
+			})
+			if k < 0 || k >= len(found) {
+				return nil, fmt.Errorf("%s: %s has %d return statements, clause names return#%d", cl.pos, con.name, len(found), k)
+			}
+			cl.retPos = found[k]
+			pos = found[k]
 		} else if cl.kind == "at" && cl.at == "return" {
 			// checked at every return site, before the postconditions; locals are visible
 			pos = body.Rbrace
@@ -250,6 +280,8 @@ func expandPromoted(info *types.Info, x *ast.SelectorExpr) ast.Expr {
 	info.Types[out] = info.Types[x]
 	return out
 }
+
+var valueRecvRE = regexp.MustCompile(`^(\w+)\.\((\w+)\)\.\w+$`)
 
 func isInterfaceMethodName(n string) bool {
 	// e.g. io.Writer.Write: two dots
@@ -439,6 +471,15 @@ func (env *Env) lookupVar(id *ast.Ident) (Val, bool) {
 			}
 			v, ok := env.st.cells[al]
 			if !ok {
+				// a struct-typed variable that escapes (captured by a closure) lives in the heap
+				if sa := al; sa != nil && sa.Heap {
+					if ref, isRef := env.fr.vals[sa].(*Term); isRef {
+						et := sa.Type().Underlying().(*types.Pointer).Elem()
+						if isStructType(et) {
+							return env.u.loadStruct(env.st, ref, et), true
+						}
+					}
+				}
 				panic(env.u.errf("contract mentions %s which is not live here", id.Name))
 			}
 			return v, true
@@ -607,7 +648,7 @@ func (env *Env) eval(e ast.Expr) Val {
 			selIndex = sel.Index()
 		} else if sel == nil {
 			// synthesized selector (expandPromoted): resolve the field by name
-			if obj, index, _ := types.LookupFieldOrMethod(env.typeOf(x.X), true, u.con.pkg.Types, x.Sel.Name); obj != nil {
+			if obj, index, _ := types.LookupFieldOrMethod(env.typeOf(x.X), true, pkgOfType(env.typeOf(x.X), u.con.pkg.Types), x.Sel.Name); obj != nil {
 				if _, isVar := obj.(*types.Var); isVar {
 					selIndex = index
 				}
@@ -689,7 +730,7 @@ func (env *Env) evalLoc(e ast.Expr) (ref *Term, ok bool) {
 		if !ok {
 			return nil, false
 		}
-		_, index, _ := types.LookupFieldOrMethod(bt, true, u.con.pkg.Types, x.Sel.Name)
+		_, index, _ := types.LookupFieldOrMethod(bt, true, pkgOfType(bt, u.con.pkg.Types), x.Sel.Name)
 		if len(index) == 0 {
 			panic(u.errf("contract: cannot resolve location %s", exprString(e)))
 		}
@@ -1115,4 +1156,20 @@ func callResultParams(body *ast.BlockStmt, info *types.Info, pkg *types.Package,
 		return false
 	})
 	return out
+}
+
+// pkgOfType: the package in which the (possibly pointed-to) named type t is
+// declared - unexported fields are looked up from there (a callee's frame may name
+// fields of a type of another package than the unit's); def when t is unnamed.
+func pkgOfType(t types.Type, def *types.Package) *types.Package {
+	if p, ok := t.Underlying().(*types.Pointer); ok {
+		t = p.Elem()
+	}
+	if p, ok := t.(*types.Pointer); ok {
+		t = p.Elem()
+	}
+	if n, ok := t.(*types.Named); ok && n.Obj() != nil && n.Obj().Pkg() != nil {
+		return n.Obj().Pkg()
+	}
+	return def
 }
